@@ -153,6 +153,7 @@ def run_case(spec):
     rng.shuffle(dests)
     add_destinations(*dests)
     it = Interp(tape=tape, ser_hook=ser_hook)
+    it.explicit_loggers = True
     try:
         it.run(prog)
     finally:
